@@ -833,3 +833,54 @@ Proof.
   destruct (Hfind lo Hlo) as (n1 & p1 & d1 & H1 & E1). destruct (Hfind hi Hhi) as (n2 & p2 & d2 & H2 & E2).
   exists n1, p1, d1, n2, p2, d2, lo, hi. auto 10.
 Qed.
+
+(* bid, ask (v3) and the native fee, same statements *)
+Theorem consensus_bid_between_data_sources base ss f v : senders_ok ss ->
+  let txs := map (fun pt => (p_bid (fst pt), snd pt)) (received 3 base ss) in
+  (faulty_count (tvalid txs) < honest_count (tvalid txs))%nat ->
+  consensus_price (map fst txs) f = Ok v ->
+  exists n1 d1 n2 d2 lo hi, In (Correct n1 d1) ss /\ In (Correct n2 d2) ss /\ ds_bid d1 = Some lo /\ ds_bid d2 = Some hi /\ lo <= v <= hi.
+Proof.
+  intros Hok txs Hmaj Hc.
+  destruct (consensus_price_in_honest_range txs f v Hmaj Hc) as (lo & hi & Hlo & Hhi & Hr).
+  assert (Hfind : forall x, In ((x, true), true) txs -> exists n d, In (Correct n d) ss /\ ds_bid d = Some x).
+  { intros x Hx. subst txs. apply in_map_iff in Hx. destruct Hx as ([p t] & Hpt & Hin). cbn [fst snd] in Hpt.
+    inversion Hpt; subst t. destruct (received_correct 3 base ss p (or_intror (or_introl eq_refl)) Hok Hin) as (n & d & Hs & ->).
+    exists n, d. split; [exact Hs|]. unfold expected_pao in H0. cbn [p_bid] in H0. change (3 =? 3) with true in H0. cbv iota in H0.
+    exact (pick_valid _ _ _ _ H0). }
+  destruct (Hfind lo Hlo) as (n1 & d1 & H1 & E1). destruct (Hfind hi Hhi) as (n2 & d2 & H2 & E2).
+  exists n1, d1, n2, d2, lo, hi. auto.
+Qed.
+Theorem consensus_ask_between_data_sources base ss f v : senders_ok ss ->
+  let txs := map (fun pt => (p_ask (fst pt), snd pt)) (received 3 base ss) in
+  (faulty_count (tvalid txs) < honest_count (tvalid txs))%nat ->
+  consensus_price (map fst txs) f = Ok v ->
+  exists n1 d1 n2 d2 lo hi, In (Correct n1 d1) ss /\ In (Correct n2 d2) ss /\ ds_ask d1 = Some lo /\ ds_ask d2 = Some hi /\ lo <= v <= hi.
+Proof.
+  intros Hok txs Hmaj Hc.
+  destruct (consensus_price_in_honest_range txs f v Hmaj Hc) as (lo & hi & Hlo & Hhi & Hr).
+  assert (Hfind : forall x, In ((x, true), true) txs -> exists n d, In (Correct n d) ss /\ ds_ask d = Some x).
+  { intros x Hx. subst txs. apply in_map_iff in Hx. destruct Hx as ([p t] & Hpt & Hin). cbn [fst snd] in Hpt.
+    inversion Hpt; subst t. destruct (received_correct 3 base ss p (or_intror (or_introl eq_refl)) Hok Hin) as (n & d & Hs & ->).
+    exists n, d. split; [exact Hs|]. unfold expected_pao in H0. cbn [p_ask] in H0. change (3 =? 3) with true in H0. cbv iota in H0.
+    exact (pick_valid _ _ _ _ H0). }
+  destruct (Hfind lo Hlo) as (n1 & d1 & H1 & E1). destruct (Hfind hi Hhi) as (n2 & d2 & H2 & E2).
+  exists n1, d1, n2, d2, lo, hi. auto.
+Qed.
+Theorem consensus_native_fee_between_computed_fees ver base ss f v :
+  ver = 2 \/ ver = 3 \/ ver = 4 -> senders_ok ss ->
+  let txs := map (fun pt => (p_native (fst pt), snd pt)) (received ver base ss) in
+  (faulty_count (tfee txs) < honest_count (tfee txs))%nat ->
+  consensus_fee (map fst txs) f = Ok v ->
+  0 <= v /\ exists n1 d1 n2 d2 lo hi, In (Correct n1 d1) ss /\ In (Correct n2 d2) ss /\
+                            fee_val base (ds_native d1) = (lo, true) /\ fee_val base (ds_native d2) = (hi, true) /\ lo <= v <= hi.
+Proof.
+  intros Hv Hok txs Hmaj Hc.
+  destruct (consensus_fee_in_honest_range txs f v Hmaj Hc) as (Hnn & lo & hi & Hlo & Hhi & Hr). split; [exact Hnn|].
+  assert (Hfind : forall x, In ((x, true), true) txs -> exists n d, In (Correct n d) ss /\ fee_val base (ds_native d) = (x, true)).
+  { intros x Hx. subst txs. apply in_map_iff in Hx. destruct Hx as ([p t] & Hpt & Hin). cbn [fst snd] in Hpt.
+    inversion Hpt; subst t. destruct (received_correct ver base ss p Hv Hok Hin) as (n & d & Hs & ->).
+    exists n, d. split; [exact Hs|]. first [exact H0 | reflexivity]. }
+  destruct (Hfind lo Hlo) as (n1 & d1 & H1 & E1). destruct (Hfind hi Hhi) as (n2 & d2 & H2 & E2).
+  exists n1, d1, n2, d2, lo, hi. auto.
+Qed.
